@@ -176,15 +176,21 @@ func (p *Processor) ChargingDataCreate(
 	ue.NotifyUri = chargingData.NotifyUri
 
 	consumerId := chargingData.NfConsumerIdentification.NFName
-	if !chargingData.OneTimeEvent {
-		chargingSessionId = ueId + consumerId + strconv.Itoa(int(self.LocalRecordSequenceNumber))
-	}
-	cdr, err := p.OpenCDR(chargingData, ue, chargingSessionId, false)
+	cdr, err := p.OpenCDR(chargingData, ue, "", false)
 	if err != nil {
 		problemDetails := &models.ProblemDetails{
 			Status: http.StatusBadRequest,
 		}
 		return nil, "", problemDetails
+	}
+	if !chargingData.OneTimeEvent {
+		// The local record sequence number is allocated under the context lock, hence unique;
+		// the separator keeps it apart from a consumer name that ends in digits
+		chargingSessionId = ueId + consumerId + "-" +
+			strconv.FormatInt(cdr.ChargingFunctionRecord.LocalRecordSequenceNumber.Value, 10)
+		cdr.ChargingFunctionRecord.ChargingSessionIdentifier = &cdrType.ChargingSessionIdentifier{
+			Value: asn.OctetString(chargingSessionId),
+		}
 	}
 
 	err = p.UpdateCDR(cdr, chargingData)
